@@ -260,3 +260,49 @@ func cmdSweepClaim() int {
 		nfn, nerr, nobl, nproved, len(names), time.Since(start).Seconds())
 	return 0
 }
+
+// cmdSweepReplay: development aid for the triage of refuted sweep obligations. The named functions are translated
+// without contract; every refuted safety obligation is replayed on the real function with the solver's inputs; the
+// confirmed panics are listed.
+func cmdSweepReplay(keys []string) int {
+	defer cleanupWorkDir()
+	w, err := loadWorld()
+	if err != nil {
+		fmt.Fprintln(os.Stderr, err)
+		return 2
+	}
+	w.sweep = true
+	dir := filepath.Join(outRoot, "replays", "sweep")
+	os.MkdirAll(dir, 0o755)
+	for _, key := range keys {
+		fn := w.funcs[key]
+		if fn == nil {
+			fmt.Printf("no function %s\n", key)
+			continue
+		}
+		r := w.verifyFunc(fn, nil, ModeBV)
+		var keep []*Oblig
+		for _, o := range r.Obls {
+			if isSafetyKind(o.Kind) {
+				keep = append(keep, o)
+			}
+		}
+		r.Obls = keep
+		out := &checkOutcome{byName: map[string]*Oblig{}, fnErr: map[string]string{}, results: []*FuncResult{r}}
+		solveAll(out.results, 2, 5, 16)
+		seen := map[string]bool{}
+		for _, o := range r.Obls {
+			if o.Res == nil || o.Res.Status != "sat" || seen[o.Pos] {
+				continue
+			}
+			seen[o.Pos] = true
+			path, confirmed := w.replayObligation(out, o, dir)
+			if confirmed {
+				fmt.Printf("CONFIRMED PANIC %s at %s (replay %s)\n", o.Name, o.Pos, path)
+			} else {
+				fmt.Printf("not confirmed   %s at %s\n", o.Name, o.Pos)
+			}
+		}
+	}
+	return 0
+}
